@@ -347,6 +347,26 @@ func ZZ_C10_roundtrip() {
 			s2 := setting.DeepCopy()
 			s2.Spec.Containers[0].Resources = zzRes("750m")
 			nondet.Assert("C10.perturb.setting", !compareCurrentPodWithNewPod(params, pod, NewNodeItem(node, s2)))
+			// ... or starts to demand a quantity in a section the pod's container does not have at all
+			s3 := setting.DeepCopy()
+			s3.Spec.Containers[0].Resources.Limits = corev1.ResourceList{corev1.ResourceCPU: resource.MustParse("1")}
+			nondet.Assert("C10.perturb.setting-demands-a-missing-section", !compareCurrentPodWithNewPod(params, pod, NewNodeItem(node, s3)))
+		}
+		// a valid setting appears for a container that has no resources of that kind at all
+		if in.setting == "" && in.annotation == "" {
+			target := "agent"
+			if in.nContainers == 2 {
+				target = "sidecar"
+			}
+			s4 := &datadoghqv1alpha1.ExtendedDaemonsetSetting{
+				ObjectMeta: metav1.ObjectMeta{Name: "setting", Namespace: zzNS},
+				Spec: datadoghqv1alpha1.ExtendedDaemonsetSettingSpec{
+					Reference:  &autoscalingv1.CrossVersionObjectReference{Name: zzEDSName},
+					Containers: []datadoghqv1alpha1.ExtendedDaemonsetSettingContainerSpec{{Name: target, Resources: corev1.ResourceRequirements{Limits: corev1.ResourceList{corev1.ResourceMemory: resource.MustParse("256Mi")}}}},
+				},
+				Status: datadoghqv1alpha1.ExtendedDaemonsetSettingStatus{Status: datadoghqv1alpha1.ExtendedDaemonsetSettingStatusValid},
+			}
+			nondet.Assert("C10.perturb.setting-appears-for-a-missing-section", !compareCurrentPodWithNewPod(params, pod, NewNodeItem(node, s4)))
 		}
 	}
 	nondet.Observe("cpu", zzCPU(&pod.Spec.Containers[0]))
